@@ -953,11 +953,16 @@ LITERAL_SETS = [
 _NT_COUNTER = itertools.count()
 
 
-def gen_type(rng, depth, *, hashable=False, for_union=False, str_key=False, scalars=None):  # noqa: C901, PLR0911, PLR0912
-    """Random type node of the non-model grammar. depth = remaining nesting budget."""
+MODEL_HOOK = None   # set by vlib.models: (rng, depth) -> ModelT; consulted only when the caller enabled models
+
+
+def gen_type(rng, depth, *, hashable=False, for_union=False, str_key=False, scalars=None, with_models=False):  # noqa: C901, PLR0911, PLR0912
+    """Random type node of the grammar. depth = remaining nesting budget."""
     scalars = scalars or _SCALARS
     roll = rng.random()
     leaf = depth <= 0 or roll < 0.30
+    if with_models and MODEL_HOOK is not None and not hashable and not str_key and depth >= 1 and rng.random() < 0.22:
+        return MODEL_HOOK(rng, depth)
     if str_key:
         pool = [n for n in scalars if n.str_dump and n.hashable and n.kind not in ("LiteralString",)]
         return rng.choice(pool)
@@ -978,20 +983,20 @@ def gen_type(rng, depth, *, hashable=False, for_union=False, str_key=False, scal
         if hashable:
             kinds = ["VarTuple", "vartuple", "FrozenSet", "frozenset", "Iterable", "Sequence", "Collection", "AbstractSet"]
         kind = rng.choice(kinds)
-        elem = gen_type(rng, depth - 1, hashable=hashable or kind in SET_KINDS, scalars=scalars)
+        elem = gen_type(rng, depth - 1, hashable=hashable or kind in SET_KINDS, scalars=scalars, with_models=with_models)
         return IterT(kind, elem)
     if choice == "tuple":
         n = rng.choice([0, 1, 2, 2, 3])
-        return TupleT([gen_type(rng, depth - 1, hashable=hashable, scalars=scalars) for _ in range(n)], builtin=rng.random() < 0.4)
+        return TupleT([gen_type(rng, depth - 1, hashable=hashable, scalars=scalars, with_models=with_models) for _ in range(n)], builtin=rng.random() < 0.4)
     if choice == "dict":
         if hashable:
-            return gen_type(rng, 0, hashable=True, for_union=for_union, scalars=scalars)
-        key = gen_type(rng, min(depth - 1, 1), hashable=True, scalars=scalars) if rng.random() < 0.5 else gen_type(rng, 0, str_key=True, scalars=scalars)
-        return DictT(rng.choice(list(DICTS)), key, gen_type(rng, depth - 1, scalars=scalars))
+            return gen_type(rng, 0, hashable=True, for_union=for_union, scalars=scalars, with_models=with_models)
+        key = gen_type(rng, min(depth - 1, 1), hashable=True, scalars=scalars) if rng.random() < 0.5 else gen_type(rng, 0, str_key=True, scalars=scalars, with_models=with_models)
+        return DictT(rng.choice(list(DICTS)), key, gen_type(rng, depth - 1, scalars=scalars, with_models=with_models))
     if choice == "literal":
         return LiteralT(rng.choice(LITERAL_SETS))
     if choice == "optional":
-        inner = gen_type(rng, depth - 1, hashable=hashable, for_union=True, scalars=scalars)
+        inner = gen_type(rng, depth - 1, hashable=hashable, for_union=True, scalars=scalars, with_models=with_models)
         if inner.kind == "None":
             inner = IntT()
         if rng.random() < 0.5:
@@ -1001,7 +1006,7 @@ def gen_type(rng, depth, *, hashable=False, for_union=False, str_key=False, scal
         n = rng.choice([2, 2, 3])
         cases, origins = [], set()
         for _ in range(n * 3):
-            c = gen_type(rng, depth - 1, hashable=hashable, for_union=True, scalars=scalars)
+            c = gen_type(rng, depth - 1, hashable=hashable, for_union=True, scalars=scalars, with_models=with_models)
             o = c.class_origin
             if o is None or o in origins:
                 continue
@@ -1010,7 +1015,7 @@ def gen_type(rng, depth, *, hashable=False, for_union=False, str_key=False, scal
             if len(cases) == n:
                 break
         if len(cases) < 2:
-            return gen_type(rng, 0, hashable=hashable, scalars=scalars)
+            return gen_type(rng, 0, hashable=hashable, scalars=scalars, with_models=with_models)
         if rng.random() < 0.3:
             hint = cases[0].hint
             try:
@@ -1021,7 +1026,7 @@ def gen_type(rng, depth, *, hashable=False, for_union=False, str_key=False, scal
                 pass
         return UnionT(cases)
     # wrap
-    child = gen_type(rng, depth - 1, hashable=hashable, scalars=scalars)
+    child = gen_type(rng, depth - 1, hashable=hashable, scalars=scalars, with_models=with_models)
     w = rng.choice(["NewType", "Annotated", "Annotated"])
     if w == "NewType" and child.kind not in ("Union", "Optional", "Literal", "None", "Any", "object") and isinstance(child.hint, type):
         name = f"NT{next(_NT_COUNTER)}"
